@@ -1,7 +1,7 @@
 import numpy as np
 import opt_einsum
 
-from numqi.utils import hf_num_state_to_num_qubit
+from numqi.utils import hf_num_state_to_num_qubit, hf_tuple_of_int
 
 # TODO merge with circuit
 
@@ -31,6 +31,7 @@ def apply_gate(dm:np.ndarray, op:np.ndarray, index:int|tuple[int]):
     Returns:
         ret (np.ndarray): the density matrix after applying the gate
     '''
+    index = list(hf_tuple_of_int(index))
     num_state = len(dm)
     assert dm.ndim==2 and dm.shape==(num_state,num_state)
     num_qubit = hf_num_state_to_num_qubit(num_state)
@@ -91,6 +92,7 @@ def operator_expectation(dm0:np.ndarray, op:np.ndarray, index:int|tuple[int]):
     Returns:
         ret (np.ndarray): the expectation value
     '''
+    index = list(hf_tuple_of_int(index))
     num_state = len(dm0)
     num_qubit = hf_num_state_to_num_qubit(num_state)
     ind_map = {y:(x+num_qubit) for x,y in enumerate(index)}
